@@ -14,7 +14,7 @@ RULE = ("client programs over {start, stop, enqueue (returning / raising / gate-
         "Non-trivial: at least one task and 20 model steps; distinct by (program, schedule policy).")
 MANIFEST_ENTRY = {
     "text": "Theorems for every schedule/program/pool size: join() never returns True while a task enqueued before the call is neither done nor dropped, never returns False unless timed with work outstanding; after stop() returned no body begins and every worker is dead; all invariants hold after any number of restarts; redundant start()/stop() are one flag read; the pool never deadlocks: inside stop() (and for every worker and client call) the thread can step or the holder of the lock / queue mutex it waits for can. Lock-step correspondence with the real pool; the oracle checks join's claim at the moment it returns, that stop() returns under every explored schedule (exact deadlock detection), worker exit, restart and idempotence.",
-    "note": "Proved for ALL schedules/programs/pool sizes about Model/Pool.v (24 worker labels, 48 client labels, RLock, queue with its mutex and all_tasks_done condition); time-outs may fire at any moment in the theorems. Modelled, not verified: queue.Queue / threading primitives as atomic operations, CPython's atomicity of one source line, thread creation succeeds, unbounded queue, start()/stop() from one controlling thread. 'stop() always returns' is proved in its safety half for every reachable state of every schedule: the pool never deadlocks (C11_stop_never_blocked / C11_stop_no_deadlock: inside stop() the controlling thread can step or the holder of the lock / queue mutex it waits for can; C11_thread_progress_worker / _client: so can every started worker and every client call except a client's own untimed join() with work outstanding; C11_join_on_running_pool_not_stuck). PARTIAL: termination itself (fair scheduling, task bodies that return) is not a theorem; the scheduler's exact deadlock detection decides it on the explored schedules only.",
+    "note": "Proved for ALL schedules/programs/pool sizes about Model/Pool.v (24 worker labels, 48 client labels, RLock, queue with its mutex and all_tasks_done condition); time-outs may fire at any moment in the theorems. Modelled, not verified: queue.Queue / threading primitives as atomic operations, CPython's atomicity of one source line, thread creation succeeds, unbounded queue, start()/stop() from one controlling thread. 'stop() always returns' is proved in its safety half for every reachable state of every schedule: the pool never deadlocks (C11_stop_never_blocked / C11_stop_no_deadlock: inside stop() the controlling thread can step or the holder of the lock / queue mutex it waits for can; C11_thread_progress_worker / _client: so can every started worker and every client call except a client's own untimed join() with work outstanding; C11_join_on_running_pool_not_stuck), and the variant halves: once the stop flag is set every step of a worker strictly decreases its rank (<= 22 own steps to exit, C11_worker_exits_in_bounded_steps; no other thread's step increases it, C11_worker_rank_monotone), every own step of stop() decreases (phase, position) lexicographically except the re-poll of a worker after thread.join(3) (C11_stop_steps_decrease). PARTIAL: termination itself (fair scheduling, task bodies that return) is not a theorem; the scheduler's exact deadlock detection decides it on the explored schedules only.",
     "technique": "Coq proof of invariants over all schedules of a line-granularity interleaving model + lock-step correspondence under a controlled scheduler + property oracle",
     "design_ref": "DESIGN.md 4/C11 and 'The thread-pool model shared by C09, C10, C11'",
 }
